@@ -69,6 +69,8 @@ Upd(h, id, n) == [h EXCEPT ![id] = n]
 (* the C code tests `self->len >= max_internal_size * 2` in BTree_grow for  *)
 (* every node, but below the root a node never gets that long because its   *)
 (* parent splits it at max_internal_size + 1.                               *)
+RECURSIVE SubMinG(_, _)
+SubMinG(h, id) == IF h[id].t = "L" THEN h[id].ks[1] ELSE SubMinG(h, h[id].kids[1])
 RECURSIVE Grow(_, _, _)
 Grow(h, self, i) ==
   LET s    == h[self]
@@ -85,7 +87,11 @@ Grow(h, self, i) ==
       v2 == IF v.t = "L"
               THEN Leaf(SubSeq(v.ks, 1, half), SubSeq(v.vs, 1, half), eid)
               ELSE Inner(SubSeq(v.kids, 1, half), SubSeq(v.seps, 1, half), v.fb)
-      sep == IF v.t = "L" THEN e.ks[1] ELSE e.seps[1]
+      \* (the pure-Python _grow asks the new sibling for its minKey(); the C code hands up the separator stored at the split
+      \*  point.  The same thing as long as separators are exact; on a tree with loose separators - see Loosen - the two
+      \*  build different, equally valid shapes: named deviation "Py_GrowSepIsMinKey", recorded finding D52)
+      sep == IF v.t = "L" THEN e.ks[1]
+             ELSE IF "Py_GrowSepIsMinKey" \in Dev THEN SubMinG(h, v.kids[half+1]) ELSE e.seps[1]
       s2 == Inner(InsertAt(s.kids, i+1, eid), InsertAt(s.seps, i+1, sep), s.fb)
       h2 == Upd(Upd(Ext(h, eid, e), vid, v2), self, s2)
   IN IF Len(s2.kids) >= 2 * MaxInt
@@ -366,6 +372,9 @@ Loosen(id, i, s) ==
           [op |-> "loosen", k |-> s, v |-> i, p |-> PathTo(heap, Root, id)], OK, OK)
 NextLoose == NextCore \/ \E id \in DOMAIN heap, i \in 2..(2 * MaxInt), s \in SepChoices : Loosen(id, i, s)
 SpecLoose == Init /\ [][NextLoose]_vars
+\* ... and every public mutator on such trees
+NextLooseAll == Next \/ \E id \in DOMAIN heap, i \in 2..(2 * MaxInt), s \in SepChoices : Loosen(id, i, s)
+SpecLooseAll == Init /\ [][NextLooseAll]_vars
 
 -----------------------------------------------------------------------------
 (* C01: refinement of the sorted map *)
